@@ -24,7 +24,7 @@ const prop = "C15"
 
 // Call is one lease API call of a node's program.
 type Call struct {
-	Kind string `json:"kind"` // lease-long (+1h) | lease-expired (-1h, i.e. a lease that is already over) | return
+	Kind string `json:"kind"` // lease-long (+1h) | lease-expired (-1h, i.e. a lease that is already over) | return | create-table | delete-table (catalogue calls on the leased table's name: they never hand anybody a lease)
 }
 
 type Case struct {
@@ -40,11 +40,12 @@ type Case struct {
 func genCaseReplicas(t *rapid.T) Case {
 	nodes := rapid.IntRange(2, 3).Draw(t, "nodes")
 	c := Case{Replicas: true}
+	catalogue := rapid.IntRange(0, 4).Draw(t, "catalogue-calls") == 0
 	for n := 0; n < nodes; n++ {
 		var p []Call
 		k := rapid.IntRange(1, 4).Draw(t, "calls")
 		for i := 0; i < k; i++ {
-			p = append(p, Call{Kind: rapid.SampledFrom([]string{"lease-long", "lease-long", "lease-expired", "lease-expired", "return", "return"}).Draw(t, "kind")})
+			p = append(p, Call{Kind: rapid.SampledFrom(kindsFor(catalogue, []string{"lease-long", "lease-long", "lease-expired", "lease-expired", "return", "return"})).Draw(t, "kind")})
 		}
 		c.Programs = append(c.Programs, p)
 	}
@@ -53,14 +54,24 @@ func genCaseReplicas(t *rapid.T) Case {
 	return c
 }
 
+// kindsFor: in a fifth of the cases the nodes also create and delete the leased table's catalogue record (what a follower's replication
+// manager does when the table appears / vanishes on the leader) - no catalogue call hands anybody a lease or takes one away.
+func kindsFor(catalogue bool, kinds []string) []string {
+	if !catalogue {
+		return kinds
+	}
+	return append(append([]string(nil), kinds...), "create-table", "delete-table", "delete-table")
+}
+
 func genCase(t *rapid.T) Case {
 	nodes := rapid.IntRange(2, 3).Draw(t, "nodes")
 	c := Case{}
+	catalogue := rapid.IntRange(0, 4).Draw(t, "catalogue-calls") == 0
 	for n := 0; n < nodes; n++ {
 		var p []Call
 		k := rapid.IntRange(1, 4).Draw(t, "calls")
 		for i := 0; i < k; i++ {
-			p = append(p, Call{Kind: rapid.SampledFrom([]string{"lease-long", "lease-long", "lease-expired", "return"}).Draw(t, "kind")})
+			p = append(p, Call{Kind: rapid.SampledFrom(kindsFor(catalogue, []string{"lease-long", "lease-long", "lease-expired", "return"})).Draw(t, "kind")})
 		}
 		c.Programs = append(c.Programs, p)
 	}
@@ -162,12 +173,16 @@ func executeB(c Case) (steps int, overlapped bool, branching []int, f *vt.Failur
 				fail = vt.Failf(prop+"/lease-stolen", step, "node %d overwrote the unexpired lease of node %d (valid until %s)", node, pw.lease.ID, pw.lease.Until.Format(time.RFC3339))
 			}
 		case "delete":
+			if r := current[caller]; r != nil && r.kind != "return" {
+				break // judged by its consequences (a second holder), not by the clause about returning a lease
+			}
 			if pw.exists && pw.lease.ID != node {
 				fail = vt.Failf(prop+"/foreign-lease-removed", step, "node %d removed the lease record of node %d", node, pw.lease.ID)
 			}
 		}
 	}
 	var recs []*callRec
+	catalogueCalls := false
 	programs := make([]func(s *gate.Store), len(c.Programs))
 	for n := range c.Programs {
 		n := n
@@ -194,6 +209,18 @@ func executeB(c Case) (steps int, overlapped bool, branching []int, f *vt.Failur
 					r.ok, r.err = m.ReturnTable(tableName)
 					if r.ok {
 						believes[n+1] = false
+					}
+				case "create-table":
+					catalogueCalls = true
+					_, r.err = m.VerifCreateRecord(tableName)
+					if errors.Is(r.err, serrors.ErrTableExists) {
+						r.err = nil
+					}
+				case "delete-table":
+					catalogueCalls = true
+					r.err = m.DeleteTable(tableName)
+					if errors.Is(r.err, serrors.ErrTableNotFound) {
+						r.err = nil
 					}
 				}
 				r.ended = step
@@ -226,7 +253,7 @@ func executeB(c Case) (steps int, overlapped bool, branching []int, f *vt.Failur
 	// the record agrees with the ghost state: if somebody believes to hold, the record names it and is unexpired
 	cur, exists := w.Peek(leaseKey)
 	for node, b := range believes {
-		if !b {
+		if !b || catalogueCalls {
 			continue
 		}
 		var l table.Lease
